@@ -1141,17 +1141,7 @@ TraceCrash ==
 \* hashgraph.Bootstrap: every event of the database, in topological order,
 \* through the normal insertion + consensus path; the signature pool is
 \* processed after every batch of 100 and at the end.  core.setHeadAndSeq.
-RECURSIVE BootLoop(_, _, _, _)
-BootLoop(DD, h, es, k) ==
-    IF k > Len(es) THEN ProcessSigPool(h)
-    ELSE LET h1 == InsertAndRun(DD, h, es[k])
-             h2 == IF k % 100 = 0 THEN ProcessSigPool(h1) ELSE h1
-         IN  BootLoop(DD, h2, es, k + 1)
-
-BootNode(DD, gen, me, es) ==
-    LET h == BootLoop(DD, InitHG(gen, me), es, 1)
-        hd == LastFrom(h, me)
-    IN  [ InitCore(gen, me) EXCEPT !.h = h, !.head = hd, !.seq = IF hd = NoEv THEN -1 ELSE DD[hd].i ]
+\* (BootLoop / BootNode: Core.tla)
 
 BootOutcome(n, x, o) ==
     LET es == AsSeq(x.order)
